@@ -104,8 +104,26 @@ impl Texture {
             .seek(SeekFrom::Start(std::mem::size_of::<TexHeader>() as u64))
             .ok()?;
 
-        let mut src = vec![0u8; buffer.len() - std::mem::size_of::<TexHeader>()];
+        let mut src = vec![0u8; buffer.len().checked_sub(std::mem::size_of::<TexHeader>())?];
         cursor.read_exact(src.as_mut_slice()).ok()?;
+
+        // The dimensions come from the file: make sure the pixel data they promise is actually
+        // there before indexing it or allocating an image of that size.
+        let pixels = (header.width as usize)
+            .checked_mul(header.height as usize)?
+            .checked_mul(header.depth as usize)?;
+        let blocks = (header.width as usize)
+            .div_ceil(4)
+            .checked_mul((header.height as usize).checked_mul(header.depth as usize)?.div_ceil(4))?;
+        let required = match header.format {
+            TextureFormat::B4G4R4A4 => pixels.max(header.width as usize * header.height as usize).checked_mul(2)?,
+            TextureFormat::B8G8R8A8 => pixels.checked_mul(4)?,
+            TextureFormat::BC1 => blocks.checked_mul(8)?,
+            TextureFormat::BC3 | TextureFormat::BC5 => blocks.checked_mul(16)?,
+        };
+        if src.len() < required {
+            return None;
+        }
 
         let mut dst: Vec<u8>;
 
@@ -120,7 +138,8 @@ impl Texture {
                 let mut offset = 0;
                 let mut dst_offset = 0;
 
-                for _ in 0..header.width as usize * header.height as usize {
+                // never more pixels than the image (which also counts the depth) can hold
+                for _ in 0..(header.width as usize * header.height as usize).min(dst.len() / 4) {
                     let short: u16 = ((src[offset] as u16) << 8) | src[offset + 1] as u16;
 
                     let src_b = short & 0xF;
@@ -166,7 +185,7 @@ impl Texture {
                     header.width as usize,
                     header.height as usize * header.depth as usize,
                     decode_bc1,
-                );
+                )?;
             }
             TextureFormat::BC3 => {
                 dst = Texture::decode(
@@ -174,7 +193,7 @@ impl Texture {
                     header.width as usize,
                     header.height as usize * header.depth as usize,
                     decode_bc3,
-                );
+                )?;
             }
             TextureFormat::BC5 => {
                 dst = Texture::decode(
@@ -182,7 +201,7 @@ impl Texture {
                     header.width as usize,
                     header.height as usize * header.depth as usize,
                     decode_bc5,
-                );
+                )?;
             }
         }
 
@@ -199,17 +218,24 @@ impl Texture {
         })
     }
 
-    fn decode(src: &[u8], width: usize, height: usize, decode_func: DecodeFunction) -> Vec<u8> {
+    fn decode(
+        src: &[u8],
+        width: usize,
+        height: usize,
+        decode_func: DecodeFunction,
+    ) -> Option<Vec<u8>> {
         let mut image: Vec<u32> = vec![0; width * height];
-        decode_func(src, width, height, &mut image).unwrap();
+        decode_func(src, width, height, &mut image).ok()?;
 
-        image
-            .iter()
-            .flat_map(|x| {
-                let v = x.to_le_bytes();
-                [v[2], v[1], v[0], v[3]]
-            })
-            .collect::<Vec<u8>>()
+        Some(
+            image
+                .iter()
+                .flat_map(|x| {
+                    let v = x.to_le_bytes();
+                    [v[2], v[1], v[0], v[3]]
+                })
+                .collect::<Vec<u8>>(),
+        )
     }
 }
 
